@@ -242,8 +242,13 @@ class Gen:
 
     def mk_buffer(self, ups):
         rng = self.rng
-        return self.add({'id': self.nid('B'), 'kind': 'buffer', 'up': ups, 'cap': rng.choice(self.p['buffer_cap']),
-                         'delay': rng.choice(self.p['buffer_delay'])})
+        it = {'id': self.nid('B'), 'kind': 'buffer', 'up': ups, 'cap': rng.choice(self.p['buffer_cap']),
+              'delay': rng.choice(self.p['buffer_delay'])}
+        if rng.random() < self.p.get('p_nosy', 0.3):
+            it['nosy'] = True       # a receive callback that reads the buffer's own getters
+        if rng.random() < self.p.get('p_trim', 0):
+            it['trim'] = rng.choice([1, 2, 3])
+        return self.add(it)
 
     def mk_simple(self, ups, allow=('handler', 'processor', 'buffer')):
         k = self.rng.choice(allow)
@@ -839,6 +844,18 @@ def generate_shared_cell(seed, tie='prng'):
         items.append({'id': f'K{k}', 'kind': 'sink', 'up': [f'GP{k}'], 'ct': 0, 'collect': False})
     return {'resources': {}, 'items': items, 'horizon': [float(rng.choice([20, 30]))], 'script': [], 'tie': tie,
             'seed': seed, 'max_events': 20000, 'default_names': True, 'profile': 'shared_cell'}
+
+
+def generate_big_batches(i, tie='prng'):
+    """Scale: output batches of several hundred parts (sizes beyond anything a small-number shortcut covers)."""
+    size = [257, 300, 1000, 256, 258][i % 5]
+    items = [{'id': 'S1', 'kind': 'source', 'ct': 0.125, 'budget': None, 'values': [1], 'qualities': [1],
+              'batch': [[3, 5, 0, 7], [1], [4, 4, 129]][(i // 5) % 3]},
+             {'id': 'T2', 'kind': 'batcher', 'up': ['S1'], 'size': size},
+             {'id': 'B3', 'kind': 'buffer', 'up': ['T2'], 'cap': None, 'delay': 0},
+             {'id': 'K4', 'kind': 'sink', 'up': ['B3'], 'ct': 0, 'collect': True}]
+    return {'resources': {}, 'items': items, 'horizon': [80.0], 'script': [], 'tie': tie, 'seed': i,
+            'max_events': 60000, 'profile': 'big_batches'}
 
 
 def generate_mass_release(i, tie='prng'):
